@@ -579,6 +579,14 @@ def _dump_entries(fa: FA):
                     entries.append(_Entry(k.arg, k.value, conditional, st, how))
                 else:
                     from_mapping(k.value, st, conditional, how)
+        elif isinstance(e, (ast.List, ast.Tuple)) and e.elts and all(isinstance(x, (ast.Tuple, ast.List)) and len(x.elts) == 2 for x in e.elts):
+            # a sequence of (key, value) pairs on its way into dict(...)
+            for x in e.elts:
+                if A.const_str(x.elts[0]) is not None:
+                    entries.append(_Entry(A.const_str(x.elts[0]), x.elts[1], conditional, st, how))
+        elif isinstance(e, ast.BinOp) and isinstance(e.op, (ast.Add, ast.BitOr)):
+            from_mapping(e.left, st, conditional, how)
+            from_mapping(e.right, st, conditional, how)
         elif isinstance(e, ast.DictComp) and len(e.generators) == 1 and isinstance(e.key, ast.Name):
             g = e.generators[0]
             it = g.iter
@@ -597,7 +605,7 @@ def _dump_entries(fa: FA):
             tg = st.targets if isinstance(st, ast.Assign) else [st.target]
             for t in tg:
                 if isinstance(t, ast.Name) and t.id in names:
-                    from_mapping(st.value if isinstance(st.value, (ast.Dict, ast.Call)) else expanded(st.value, st), st, cond(st), "literal")
+                    from_mapping(st.value if isinstance(st.value, (ast.Dict, ast.Call, ast.List, ast.Tuple)) else expanded(st.value, st), st, cond(st), "literal")
                 if isinstance(t, ast.Subscript) and isinstance(t.value, ast.Name) and t.value.id in names:
                     if A.const_str(t.slice) is not None:
                         entries.append(_Entry(A.const_str(t.slice), st.value, cond(st), st, "store"))
@@ -626,6 +634,13 @@ def _dump_entries(fa: FA):
                         entries.append(_Entry(k.arg, k.value, cond(st), st, "store"))
             elif c.func.attr == "setdefault" and c.args and A.const_str(c.args[0]) is not None:
                 entries.append(_Entry(A.const_str(c.args[0]), c.args[1] if len(c.args) > 1 else None, True, st, "store"))
+            elif c.func.attr in ("append", "insert") and c.args and not c.keywords:
+                # the returned dictionary is made of a list of (key, value) pairs
+                from_mapping(ast.List(elts=[expanded(c.args[-1], st)], ctx=ast.Load()), st, cond(st), "store")
+            elif c.func.attr == "extend" and len(c.args) == 1 and not c.keywords:
+                from_mapping(expanded(c.args[0], st), st, cond(st), "store")
+        elif isinstance(st, ast.AugAssign) and isinstance(st.target, ast.Name) and st.target.id in names and isinstance(st.op, (ast.Add, ast.BitOr)):
+            from_mapping(expanded(st.value, st), st, cond(st), "store")
     return entries
 
 
